@@ -198,7 +198,9 @@ MANIFEST = {
     "text": "Proof: C01_kernel_is_shapley (the kernel's backward recurrence at every rank equals the Shapley value of "
             "the 1-NN game, all n, all orders, all utilities), C01_neighbor_is_shapley (any number of validation "
             "points, mean game), C01_game_is_nearest_present_row (under any order sorting the reduced distances the "
-            "game is 'utility of the label of a nearest present row', null when no unit is present) -- all in Q, for "
+            "game is 'utility of the label of a nearest present row', null when no unit is present), C01_simple_fast_path (the "
+            "fast path taken for a provenance flagged simple IS the per-unit reduction when row r belongs to unit r; the flag's "
+            "soundness after any edit history is C19_simple_flag_sound, finding F19) -- all in Q, for "
             "all sizes. Tied to the code at API level: ShapleyImportance('neighbor') with injected distance/utility "
             "tables; scores compared inside Coq with the model AND with the Shapley value by definition of the "
             "row-level game (exponential, <=7 units), exhaustive small universe + random datasets with ties.",
